@@ -154,8 +154,8 @@ func pevalValue(x ssa.Value, env map[ssa.Value]pv, depth int) (pv, bool) {
 
 // pevalArrival: one way of reaching the target phi.
 type pevalArrival struct {
-	edge ssa.Value         // the phi operand that arrives
-	env  map[ssa.Value]pv  // what is known on that path
+	edge ssa.Value        // the phi operand that arrives
+	env  map[ssa.Value]pv // what is known on that path
 	pred *ssa.BasicBlock
 }
 
